@@ -4,6 +4,7 @@ import GasolVerif.Models.FormulaIO
 import GasolVerif.Models.Cost
 import GasolVerif.Models.Asm
 import GasolVerif.Models.Spec
+import GasolVerif.Models.SpecSem
 open GasolVerif
 
 def parseWords? (s : String) : Option (List Word) :=
